@@ -1273,47 +1273,67 @@ func Run(r *hk.Run) {
 		r.Note(fmt.Sprintf("family %s: %.1fs", name, time.Since(t0).Seconds()))
 		t0 = time.Now()
 	}
-	g.lookalikes()
-	g.malformed()
-	lap("lookalikes+malformed")
-	if r.Thorough() {
-		g.faults(30)
-	} else {
-		g.faults(6)
+	type family struct {
+		name string
+		run  func()
 	}
-	lap("faults")
-	g.cancelledUpload()
-	lap("cancelled-upload")
-	g.duplicates("overlap")
-	g.duplicates("index-set-fails")
-	lap("duplicates")
-	if r.Thorough() {
-		g.tamperMatrix([]int{1, 0x80, 0}, 1)
-		lap("tamper-matrix")
-		g.smallHistories(60)
-		lap("small")
-		g.compaction(460, true, "compaction")
-		lap("compaction")
-		g.crashPrefixes(1, true)
-		lap("crash-prefixes")
-		g.compaction(230, false, "compaction-b")
-		g.crashPrefixes(3, false)
-		lap("compaction-b")
-		g.big(1600)
-		lap("big")
-		g.fullThreshold(9950, "full-threshold-over")
-		g.fullThreshold(9898, "full-threshold-exact")
-		lap("full-threshold")
-	} else {
-		g.tamperMatrix([]int{1, 0x80}, 1)
-		lap("tamper-matrix")
-		g.smallHistories(12)
-		lap("small")
-		g.compaction(230, true, "compaction")
-		lap("compaction")
-		g.crashPrefixes(1, true)
-		lap("crash-prefixes")
+	th := r.Thorough()
+	pick := func(q, t int) int {
+		if th {
+			return t
+		}
+		return q
 	}
+	fams := []family{
+		{"lookalikes+malformed", func() { g.lookalikes(); g.malformed() }},
+		{"keep-restart", func() {
+			g.keepRestart(60, false)  // before the first compaction
+			g.keepRestart(101, false) // right after the first compaction
+			g.keepRestart(150, true)  // between compactions, and again
+			if th {
+				g.keepRestart(30, true)
+				g.keepRestart(101, true)
+				g.keepRestart(215, false)
+			}
+		}},
+		{"faults", func() { g.faults(pick(6, 30)) }},
+		{"cancelled-upload", g.cancelledUpload},
+		{"duplicates", func() { g.duplicates("overlap"); g.duplicates("index-set-fails") }},
+		{"tamper-matrix", func() { g.tamperMatrix([]int{1, 0x80, 0}[:pick(2, 3)], 1) }},
+		{"small", func() { g.smallHistories(pick(12, 60)) }},
+		{"compaction", func() { g.compaction(pick(230, 460), true, "compaction") }},
+		{"crash-prefixes", func() { g.crashPrefixes(1, true) }},
+	}
+	if th {
+		fams = append(fams,
+			family{"compaction-b", func() { g.compaction(230, false, "compaction-b"); g.crashPrefixes(3, false) }},
+			family{"big", func() { g.big(1600) }},
+			family{"full-threshold", func() {
+				g.fullThreshold(9950, "full-threshold-over")
+				g.fullThreshold(9898, "full-threshold-exact")
+			}})
+	}
+	func() {
+		defer func() {
+			if x := recover(); x != nil {
+				if a, ok := x.(abortRun); ok {
+					r.Note("run aborted: " + a.why)
+					return
+				}
+				panic(x)
+			}
+		}()
+		for _, f := range fams {
+			if len(r.Res.Failures) > 0 {
+				// the verdict is settled; what follows could only run into the same defect in worse ways
+				// (a panic in one of the store's goroutines would take the evidence with it)
+				r.Note("stopped before family " + f.name + ": an oracle failure is already recorded")
+				break
+			}
+			f.run()
+			lap(f.name)
+		}
+	}()
 	r.Note("secrecy proper (that `0x02 || age(...)` reveals nothing about the plaintext) and the integrity of age/X25519/ChaCha20-Poly1305 are assumed, not checked; the oracle searches the stored bytes and names for plaintext material and tries every listed modification")
 }
 
